@@ -189,7 +189,8 @@ def run(prog, R):
         b = R.anchor(prog, fn)
         if b:
             ps, _ = paths(prog, fn)
-            ok = any(c[0].endswith(what) and c[1][1] == ("c", "bool", 0) and "value_u128" in show(c[1][0]) for p in ps for c in p.calls)
+            cs_ = [c for p in ps if "__diverged__" not in p.env for c in p.calls if c[0].endswith(what)]
+            ok = bool(cs_) and all(c[1][1] == ("c", "bool", 0) and "value_u128" in show(c[1][0]) for c in cs_)
             R.ob("C10.4-signs", "negative integer literal: IntLiteral::new(value_u128, false)", ok, b.at, "")
     R.premises(prog, "C10.1-lexer-suffix-premise", ["C15:C15.3-numeric-arms-agree", "C15:C15.3-string-suffix"],
                "a number directly followed by a unit reaches the accessor as number + identifier only if both numeric arms of the lexer leave a unit suffix alone")
